@@ -63,6 +63,16 @@ static void add_watch(uintptr_t lo, size_t n, const char *name, bool autow)
 {
   if (n == 0)
     return;
+  if (!autow) {
+    // an explicit, named watch replaces automatic heap watches it covers
+    for (size_t i = 0; i < watches.n;) {
+      if (watches[i].autow && watches[i].lo >= lo && watches[i].hi <= lo + n) {
+        free_watch(watches[i]);
+        watches.erase_at(i);
+      } else
+        i++;
+    }
+  }
   Watch w;
   w.lo = lo;
   w.hi = lo + n;
